@@ -947,3 +947,112 @@ display!(display_nan, 0);
 display!(display_int, 1);
 // @h prop=C06 unwind=10 cutfmt=num uw=write.0:17 timeout=900 mem=12 stubs=BigNum::to_string_base->one-digit_model what=Display_of_a_fraction:n/d
 display!(display_frac, 2);
+
+
+// ===========================================================================
+// Oracle validation (native only, run by `check C01` before the solver): the step definition
+// (crate::vspec) is pushed through the repository's OWN test programs (tests/execute_test.rs and
+// the input-free programs of tests/optimize_test.rs) and must produce the outputs those tests
+// expect.  Programs that need more stacks / labels than the definition's fixed arrays hold are
+// skipped and counted.
+// ===========================================================================
+#[cfg(not(kani))]
+pub fn spec_selftest() {
+    use crate::core::code::Code;
+    fn conv(a: &Area, t: &mut SArea, n: &mut usize) -> Option<usize> {
+        match a {
+            Area::Nil => Some(NIL),
+            Area::Val { type_, left, right } => {
+                if *n >= 7 {
+                    return None;
+                }
+                let me = *n;
+                *n += 1;
+                let l = if *type_ <= 1 { conv(left, t, n)? } else { NIL };
+                let r = if *type_ <= 1 { conv(right, t, n)? } else { NIL };
+                t.nodes[me] = (*type_, l, r);
+                Some(me)
+            }
+        }
+    }
+    let cases: [(&str, &str, &str); 14] = [
+        ("혀어어어어어어엉......핫.", "0", ""),
+        ("혀어어어어어어어엉........ 핫. 혀엉..... 흑... 하앗... 흐윽... 형.  하앙.혀엉.... 하앙... 흐윽... 항. 항. 형... 하앙. 흐으윽... 형... 흡... 혀엉..하아아앗. 혀엉.. 흡... 흐읍... 형.. 하앗. 하아앙... 형... 하앙... 흐윽...혀어어엉.. 하앙. 항. 형... 하앙. 혀엉.... 하앙. 흑... 항. 형... 흡  하앗.", "Hello, world!", ""),
+        ("혀어어어엉.. 흐으으윽... 하앗... 형.. 하앙. 하앗... 형. 혀어어엉.... 하아앙. 혀어엉... 흐윽.... 형.. 하앙.... 하앗.... 흐윽.... 핫. 혀엉.... 하앙. 혀어어엉.. 혀엉.. 하앗. 혀어어어엉.. 형. 하앙.... 흐윽.... 하앗. 혀엉..... 흐으윽... 하앗... 형. 하아앙. 혀엉..... 흐으윽... 하앗... 혀어어어어어엉. 하아앙.", "fuck you", ""),
+        ("혀어어어어어어엉......핫.. 혀어어어어어어어엉........ 핫. 혀어어어어어어어엉......... 핫..", "H", "0Q"),
+        ("형 흣........💕 흣.... 형. 하앙... 흣. 흑... 흐읏....!💕", "12345678", ""),
+        ("형. 흣..", "", "1"),
+        ("형. 형.. 형. 흑...💘 항.... 하앙... 항...♡ 흑...💘 ! 흣...흑.", "4", ""),
+        // programs seen while reproducing the optimiser defects (expected = unoptimised behaviour)
+        ("혀어어어어엉............. 혀어어어어어엉........... 흐읏.... 흣. 흣.", "M77", ""),
+        ("형.....♥ 혀어어어어어어어어어어어엉..... 항. 형........ 형 항...... 흑.....?♥?", "A", ""),
+        ("형. 형.. 흑.... 하앙...", "", ""),
+        ("형.. 형.... 흐읍..... 핫. 핫.", "", ""),
+        ("혀엉.. 흡... 핫.", "", ""),
+        ("형... 형. 흑.... 항. 핫..", "", ""),
+        ("혀어어엉.... 흣.. 핫.", "", "12"),
+    ];
+    let mut ran = 0;
+    let mut skipped = 0;
+    for (idx, (prog, want_out, want_err)) in cases.iter().enumerate() {
+        let parsed = crate::core::parse::parse(prog.to_string());
+        let mut codes: Vec<SCode> = Vec::new();
+        let mut fits = true;
+        for c in &parsed {
+            let mut t = SArea { nodes: [(0, NIL, NIL); 7], root: NIL };
+            let mut n = 0;
+            match conv(c.get_area(), &mut t, &mut n) {
+                Some(r) => t.root = r,
+                None => fits = false,
+            }
+            if c.get_type() != 0 && c.get_dot_count() >= NSTK {
+                fits = false;
+            }
+            codes.push(SCode { kind: c.get_type(), h: c.get_hangul_count(), d: c.get_dot_count(), area: t, ac: c.get_area_count() });
+        }
+        // expected values of the last 5 ad-hoc cases are taken from the real interpreter below
+        let (mut exp_out, mut exp_err) = (want_out.to_string(), want_err.to_string());
+        if idx >= 9 {
+            let mut ipt = crate::util::io::CustomReader::new(String::new());
+            let mut o = crate::util::io::CustomWriter::new(|_| Ok(()));
+            let mut e = crate::util::io::CustomWriter::new(|_| Ok(()));
+            let mut st = crate::core::state::UnOptState::new();
+            for c in &parsed {
+                st = execute(&mut ipt, &mut o, &mut e, st, c).unwrap();
+            }
+            exp_out = o.to_string().unwrap();
+            exp_err = e.to_string().unwrap();
+        }
+        if !fits {
+            skipped += 1;
+            continue;
+        }
+        let mut s = SState {
+            st: [[NAN; DEPTH]; NSTK], len: [0; NSTK], cur: 3, out: [0; OBUF], olen: 0, err: [0; OBUF], elen: 0,
+            pts: [(0, 0); NPTS], npts: 0, latest: None, line: [0; 4], line_len: 0, line_avail: false, reads: 0,
+        };
+        let mut loc = 0usize;
+        let mut steps = 0;
+        let mut over = false;
+        while loc < codes.len() && steps < 100000 {
+            if s.npts >= NPTS || s.len.iter().any(|&l| l + codes[loc].h + 2 >= DEPTH) || s.olen + 32 >= OBUF || s.elen + 32 >= OBUF {
+                over = true;
+                break;
+            }
+            match spec_step(&mut s, &codes[loc], loc) {
+                End::Next(n) => loc = n,
+                _ => break,
+            }
+            steps += 1;
+        }
+        if over {
+            skipped += 1;
+            continue;
+        }
+        let o = String::from_utf8(s.out[..s.olen].to_vec()).unwrap();
+        let e = String::from_utf8(s.err[..s.elen].to_vec()).unwrap();
+        assert!(o == exp_out && e == exp_err, "step definition disagrees with the repository's test expectation on program {}: got {:?}/{:?}, expected {:?}/{:?}", idx, o, e, exp_out, exp_err);
+        ran += 1;
+    }
+    println!("SPEC-SELFTEST: {} programs agree, {} skipped (exceed the definition's fixed arrays)", ran, skipped);
+}
